@@ -22,7 +22,12 @@ for sd, r in sorted(results.items()):
     if not (r['demo_clean'] == 0 and r['demo_patched'] != 0):
         print('NOT CONFIRMED', sd, r)
         continue
-    name = os.path.basename(sd).replace('seed_', '').replace('_', '-')
+    base = os.path.basename(sd)
+    if base.startswith('seed2_'):
+        pid_, k_ = base[len('seed2_'):].split('_')
+        name = '%s-r2-%s' % (pid_, k_)
+    else:
+        name = base.replace('seed_', '').replace('_', '-')
     dst = os.path.join(ROOT, 'seeded', name)
     os.makedirs(dst, exist_ok=True)
     for f in ('patch.diff', 'demo.py'):
